@@ -87,3 +87,13 @@ Fixpoint ldomR (l : list cell) (lim : Z) (ops : list rop) : bool :=
       (if rneed (len l) o >? lim then ldomR l lim rest
        else ldomR (fst (lstepR l o)) (match o with RRaisePush => Z.max lim (len l + 1) | _ => lim end) rest)
   end.
+
+(* the representation relation: r stands for the live list l under the limit lim *)
+Record Rr (r : registry) (l : list cell) (lim : Z) : Prop := mkRr {
+  rr_top : top r = len l;
+  rr_cap : top r <= cap r;
+  rr_live : live r = l;
+  rr_lim : Z.max (cap r) (maxSize r) = lim;
+  rr_grow : 0 <= growBy r \/ maxSize r <= cap r    (* NewState: growth disabled (maxSize 0) or step >= 1 *)
+}.
+
